@@ -14,7 +14,7 @@ import (
 	"verif/harness/ev"
 )
 
-const rule = "cases = (destination kinds {plain io.Writer, LevelWriter, FilteredLevelWriter(level)} x events with levels x per (destination,event) outcome {ok, error_i, short write}); exhaustive for <=3 destinations x <=2 events (<=3 in thorough) over 3 kinds, 3 levels, 3 outcomes; rapid for up to 8 destinations, 30 events, nested MultiLevelWriter; also a single failing writer without MultiLevelWriter, and an ErrorHandler that itself logs through a failing audit logger (each failed event, the audit event included, gets its own report). oracle = fan-out model + ErrorHandler log. non-trivial = at least one failing destination that is not the last one; distinct by construction / FNV-64"
+const rule = "cases = (destination kinds {plain io.Writer, LevelWriter, FilteredLevelWriter(level), SyncWriter around either, LevelWriterAdapter} x events with levels x per (destination,event) outcome {ok, error_i, short write}); exhaustive for <=3 destinations x <=2 events (<=3 in thorough) over 3 kinds, 3 levels, 3 outcomes; rapid for up to 8 destinations, 30 events, nested MultiLevelWriter; also a single failing writer without MultiLevelWriter, and an ErrorHandler that itself logs through a failing audit logger (each failed event, the audit event included, gets its own report). oracle = fan-out model + ErrorHandler log. non-trivial = at least one failing destination that is not the last one; distinct by construction / FNV-64"
 
 var rec = ev.New("C14", rule)
 
@@ -121,6 +121,14 @@ func build(ds []Dest, outcomes [][]int, leaves *[]*leaf, filters *[][]int, path 
 			case "filtered":
 				p = append(p, d.Filter)
 				ws = append(ws, &zerolog.FilteredLevelWriter{Writer: levelLeaf{lf}, Level: zerolog.Level(d.Filter)})
+			case "sync-plain":
+				ws = append(ws, zerolog.SyncWriter(plainLeaf{lf}))
+			case "sync-level":
+				ws = append(ws, zerolog.SyncWriter(levelLeaf{lf}))
+			case "adapter":
+				ws = append(ws, zerolog.LevelWriterAdapter{Writer: plainLeaf{lf}})
+			default:
+				panic("c14: destination kind " + d.Kind)
 			}
 			*filters = append(*filters, p)
 		}
@@ -189,7 +197,7 @@ func run(c *Case) (msg string, nontrivial bool) {
 				continue
 			}
 			lvl := lv
-			if lf.kind == "plain" || c.Direct {
+			if lf.kind == "plain" || lf.kind == "sync-plain" || lf.kind == "adapter" || c.Direct {
 				lvl = -100
 			}
 			want[li] = append(want[li], got{lvl, line})
@@ -326,7 +334,7 @@ func pow(b, e int) int {
 func genDests(rt *rapid.T, n, depth int, label string) []Dest {
 	var ds []Dest
 	for i := 0; i < n; i++ {
-		kinds := []string{"plain", "level", "filtered", "filtered"}
+		kinds := []string{"plain", "level", "filtered", "filtered", "sync-plain", "sync-level", "adapter"}
 		if depth > 0 {
 			kinds = append(kinds, "multi")
 		}
